@@ -18,34 +18,59 @@ from .absmap import make_absmap_class, make_tablemap_class, ModelTable, eval_und
 from .matchlib import Cfg, make_matcher, concrete_thresholds, threshold_values
 
 
-def apply_ops(mt, ops, unique=False, log=None):
-    """Run the operation script on matcher mt; returns list of result dicts."""
-    Tmax = max([o[1] for o in ops if o[0] in ('match', 'extend', 'match2')] + [1])
+def apply_ops(factory, ops, unique=False, hook=None):
+    """Run the operation script; `factory(overrides)` builds a fresh (map, matcher).  Returns (results, path, mp, mt).
+
+    extra ops:  ('new', {cfg overrides})   continue with a fresh matcher (same map symbols)
+                ('match_u', T)             match(path[:T], unique=True)
+                ('loglevel', 'DEBUG'|'ERROR')
+    """
+    import logging
+    lg = logging.getLogger("be.kuleuven.cs.dtai.mapmatching")
+    Tmax = max([o[1] for o in ops if o[0] in ('match', 'extend', 'match2', 'match_u')] + [1])
     path = [P(f"o{i}") for i in range(Tmax)]
     path2 = [P(f"x{i}") for i in range(Tmax)]
     res = []
-    for op in ops:
-        kind = op[0]
-        if kind == 'match':
-            st, idx = mt.match(path[:op[1]], unique=unique)
-        elif kind == 'match2':
-            st, idx = mt.match(path2[:op[1]], unique=unique)
-        elif kind == 'extend':
-            st, idx = mt.match(path[:op[1]], unique=unique, expand=True)
-        elif kind == 'widen':
-            st, idx = mt.increase_max_lattice_width(op[1], unique=unique)
-        elif kind == 'continue':
-            mt.continue_with_distance(k=op[1], nb_obs=op[2])
-            st, idx = None, None
-        else:
-            raise AssertionError(op)
-        lb = list(mt.lattice_best) if (mt.lattice_best and st) else []
-        res.append(dict(op=op, states=st, idx=idx, lattice_best=lb,
-                        score=(lb[-1].logprob if lb else None), T=len(mt.path) if mt.path else 0))
-    return res, path
+    mp, mt = factory({})
+    gen = 0
+    try:
+        for oi, op in enumerate(ops):
+            kind = op[0]
+            st = idx = None
+            if kind == 'new':
+                mp, mt = factory(op[1])
+                gen += 1
+                continue
+            if kind == 'loglevel':
+                lg.setLevel(getattr(logging, op[1]))
+                continue
+            if kind == 'match':
+                st, idx = mt.match(path[:op[1]], unique=unique)
+            elif kind == 'match_u':
+                st, idx = mt.match(path[:op[1]], unique=True)
+            elif kind == 'match2':
+                st, idx = mt.match(path2[:op[1]], unique=unique)
+            elif kind == 'extend':
+                st, idx = mt.match(path[:op[1]], unique=unique, expand=True)
+            elif kind == 'widen':
+                st, idx = mt.increase_max_lattice_width(op[1], unique=unique)
+            elif kind == 'continue':
+                mt.continue_with_distance(k=op[1], nb_obs=op[2])
+            else:
+                raise AssertionError(op)
+            lb = list(mt.lattice_best) if (mt.lattice_best and st) else []
+            r = dict(op=op, states=st, idx=idx, lattice_best=lb, score=(lb[-1].logprob if lb else None),
+                     T=len(mt.path) if mt.path else 0, mt=mt, mp=mp, gen=gen, raw_lattice_best=mt.lattice_best)
+            if hook is not None:
+                r['hooked'] = hook(mp, mt, r)
+            res.append(r)
+    finally:
+        lg.setLevel(logging.ERROR)
+    return res, path, mp, mt
 
 
-def run(inst, claims_fn, witness_fn=None, engine=None, timeout_ms=10000, split_depth=None, exc_is_violation=True):
+def run(inst, claims_fn, witness_fn=None, engine=None, timeout_ms=10000, split_depth=None, exc_is_violation=True,
+        hook_fn=None, order_fn=lambda eng, cfg, rec=None: None):
     """inst = (name, graph, cfg_kw, ops, opts[, budget[, mode[, prefix]]]).  Returns the runner.explore dict (or a
     split dict)."""
     name, g, kw, ops, opts = inst[:5]
@@ -59,11 +84,17 @@ def run(inst, claims_fn, witness_fn=None, engine=None, timeout_ms=10000, split_d
     shims.install()
     iname = f"{name} {cfg.describe()} ops={ops}" + (f" {opts}" if opts else "")
 
+    def cfg_with(over):
+        return Cfg(**dict(kw, **over)) if over else cfg
+
     def scenario():
         eng = E.get_engine()
-        mp = AbsMap(g, linked=cfg.linked, self_listed=cfg.self_listed)
-        mt = make_matcher(eng, mp, cfg)
-        res, path = apply_ops(mt, ops, unique=unique)
+
+        def factory(over):
+            c = cfg_with(over)
+            mp = AbsMap(g, linked=c.linked, self_listed=c.self_listed, order=order_fn(eng, c))
+            return mp, make_matcher(eng, mp, c)
+        res, path, mp, mt = apply_ops(factory, ops, unique=unique, hook=hook_fn)
         return dict(mp=mp, mt=mt, path=path, results=res, cfg=cfg, ops=ops, opts=opts, g=g)
 
     def claims(eng, v):
@@ -74,10 +105,14 @@ def run(inst, claims_fn, witness_fn=None, engine=None, timeout_ms=10000, split_d
 
     def concrete_ctx(table, thr):
         with shims.concrete():
-            mp = TableMap(g, table, linked=cfg.linked, self_listed=cfg.self_listed, default=0.0)
-            mt = make_matcher(None, mp, cfg)
-            concrete_thresholds(mt, cfg, thr)
-            res, path = apply_ops(mt, ops, unique=unique)
+            def factory(over):
+                c = cfg_with(over)
+                mp = TableMap(g, table, linked=c.linked, self_listed=c.self_listed, default=0.0,
+                              order=order_fn(None, c, thr.get('__orders__')))
+                mt = make_matcher(None, mp, c)
+                concrete_thresholds(mt, c, thr)
+                return mp, mt
+            res, path, mp, mt = apply_ops(factory, ops, unique=unique, hook=hook_fn)
             return dict(mp=mp, mt=mt, path=path, results=res, cfg=cfg, ops=ops, opts=opts, g=g)
 
     def confirm(eng, model, v, cname):
